@@ -218,7 +218,7 @@ var c16OverwriteRun = register("C16", "overwrite", c16OverwriteCheck)
 // ---- clones ----
 
 type c16CloneStep struct {
-	Who int    `json:"who"` // 0 original, 1 clone into nil, 2 clone into a reused destination
+	Who int    `json:"who"` // 0 original, 1 clone into nil, 2 clone into a reused destination, 3 clone into a zero-value destination
 	Op  editOp `json:"op"`
 }
 
@@ -240,9 +240,9 @@ func c16ClonesCheck(c c16Clones) error {
 	if err != nil {
 		return bugf("%v", err)
 	}
-	objs := []*simdjson.ParsedJson{pj, pj.Clone(nil), pj.Clone(old)}
-	models := [][]*rj.Node{roots, cloneRoots(roots), cloneRoots(roots)}
-	names := []string{"original", "clone(nil)", "clone(reused dst)"}
+	objs := []*simdjson.ParsedJson{pj, pj.Clone(nil), pj.Clone(old), pj.Clone(&simdjson.ParsedJson{})}
+	models := [][]*rj.Node{roots, cloneRoots(roots), cloneRoots(roots), cloneRoots(roots)}
+	names := []string{"original", "clone(nil)", "clone(reused dst)", "clone(zero-value dst)"}
 	checkAll := func(when string) error {
 		for i := range objs {
 			if err := checkAgainstModel(objs[i], models[i], c.ND, fullInvariants); err != nil {
@@ -255,7 +255,7 @@ func c16ClonesCheck(c c16Clones) error {
 		return err
 	}
 	for i, st := range c.Steps {
-		w := st.Who % 3
+		w := st.Who % len(objs)
 		wantErr, _, err := applyModel(models[w], st.Op)
 		if err != nil {
 			return err
@@ -275,7 +275,7 @@ func c16ClonesCheck(c c16Clones) error {
 	if _, err := simdjson.Parse([]byte(`{"recycled":["the","original","object","\n\t\u00e9",12345,"`+string(bytes.Repeat([]byte("r"), 300))+`"]}`), objs[0]); err != nil {
 		return bugf("recycling parse failed: %v", err)
 	}
-	for i := 1; i < 3; i++ {
+	for i := 1; i < len(objs); i++ {
 		if err := checkAgainstModel(objs[i], models[i], c.ND, fullInvariants); err != nil {
 			return fmt.Errorf("after the original was recycled by a later Parse: %s no longer matches its document: %v", names[i], err)
 		}
@@ -481,11 +481,11 @@ func TestC16_Clones(t *testing.T) {
 		for _, op := range h.Ops {
 			applyModel(base, op)
 		}
-		models := [][]*rj.Node{base, cloneRoots(base), cloneRoots(base)}
+		models := [][]*rj.Node{base, cloneRoots(base), cloneRoots(base), cloneRoots(base)}
 		n := rapid.IntRange(1, 8).Draw(t, "nsteps")
 		who := map[int]bool{}
 		for i := 0; i < n; i++ {
-			w := rapid.IntRange(0, 2).Draw(t, "who")
+			w := rapid.IntRange(0, 3).Draw(t, "who")
 			op, ok := genOp(t, models[w], mix)
 			if !ok {
 				continue
@@ -496,7 +496,7 @@ func TestC16_Clones(t *testing.T) {
 		}
 		c16ClonesRun(t, c)
 		b, _ := json.Marshal(c)
-		col("C16").Eval(who[0] && (who[1] || who[2]), evidHash(b), "kind:clones", boolClass("nd", h.ND), boolClass("copy", h.Copy))
+		col("C16").Eval(who[0] && (who[1] || who[2] || who[3]), evidHash(b), "kind:clones", boolClass("nd", h.ND), boolClass("copy", h.Copy))
 		col("C16").Sample(func() interface{} {
 			return map[string]interface{}{"kind": "clones", "doc": clip(h.Doc), "pre_edits": len(h.Ops), "steps": len(c.Steps)}
 		})
